@@ -330,7 +330,7 @@ fn build(tier: Tier) -> Vec<Scenario> {
     out
 }
 
-fn zip_timestamped(a: usize, b: usize, off: i64) -> Scenario {
+pub fn zip_timestamped(a: usize, b: usize, off: i64) -> Scenario {
     use crate::e2::{drive_binary, select_scenario, shape, watermark_safety};
     use renoir::{RuntimeConfig, StreamContext};
     let name = format!("C09/zip-timestamped/a{a}-b{b}-off{off}");
